@@ -194,23 +194,118 @@ def unhinted(run, fx):
                          'without the dominating font->isHinted() test: unhinted fonts shared between threads now race on m_advances',
                          {'facts': [f[:3] for f in fs]})
     fc = [f for f in fx.fns_named('graphite2::Font::Font') if not f.f.get('implicit')]
-    ok = False
     for f in fc:
         for _, e in f.elements():
             if e['k'] == 'Init' and e.get('field') == 'graphite2::Font::m_hinted':
-                txt = f.render(f.N(e['init']))
-                if 'glyph_advance_x' in txt and 'glyph_advance_y' in txt and '&&' in txt:
-                    ok = True
-                    run.held('UNHINTED', 'm_hinted definition', f.where(), txt)
                 hinted_tests_handle(run, f, e, 'UNHINTED')
-    if not ok:
-        run.violated('UNHINTED', 'm_hinted definition', fc[0].where() if fc else '', 'Font::m_hinted is no longer `appFontHandle && ops && (advance_x || advance_y)`')
+    fontops_exec(run, fx, 'UNHINTED')          # what m_hinted comes out as, decided by interpreting the constructor (not by the spelling of its initialiser)
     ih = fx.one('graphite2::Font::isHinted')
     rets = [ih.render(ih.strip_all_casts(e['c'][0])) for _, e in ih.elements() if e['k'] == 'ReturnStmt']
     if rets == ['this->m_hinted']:
         run.held('UNHINTED', 'isHinted', ih.where(), 'returns m_hinted', False)
     else:
         run.violated('UNHINTED', 'isHinted', ih.where(), 'Font::isHinted returns %s' % rets)
+
+
+def fontops_exec(run, fx, rule='UNHINTED'):
+    """which fonts count as hinted, by bounded execution (rules/ordint.py): Font::Font is interpreted for every combination of
+    application handle {NULL, given} x ops {NULL, given} x glyph_advance_x {NULL, fn} x glyph_advance_y {NULL, fn}.  Afterwards
+      * the font is hinted ONLY if the application gave a handle, an ops structure and a horizontal advance callback (a font made with
+        gr_make_font, or with empty ops, is unhinted: shapers may share it, and its positions are the design-unit ones scaled);
+      * a hinted font's m_ops.glyph_advance_x -- the one callback the library calls (Font::advance) -- is the application's, never null
+        (ops that carry only the y callback are legal: "can be NULL to signify no horizontal hinted metrics are necessary");
+      * an unhinted font's glyph_advance_x is the library's own default, so a stray Font::advance still lands in the library."""
+    from . import ordint as O
+    PF = 'graphite2::Font::'
+    ctors = [f for f in fx.fns_named('graphite2::Font::Font') if not f.f.get('implicit') and len(f.f.get('params') or []) == 4]
+    inst = 'Font::Font: hinted exactly when handle, ops and the x callback are given; the callback it keeps is callable (interpreted)'
+    if len(ctors) != 1:
+        run.broken(rule, inst, 'Font::Font(ppm, face, handle, ops) not found')
+        return
+    fn = ctors[0]
+    frec = fx.record('graphite2::Font')
+    orec = fx.raw['records'].get('gr_font_ops')
+    if orec is None or [f['n'] for f in orec['fields']] != ['size', 'glyph_advance_x', 'glyph_advance_y']:
+        run.broken(rule, inst, 'gr_font_ops is not {size, glyph_advance_x, glyph_advance_y} any more', fn.where())
+        return
+    names = [orec['q'] + '::' + f['n'] for f in orec['fields']]
+    cases = 0
+    try:
+        for handle in (False, True):
+            for have_ops in (False, True):
+                for hx in (False, True):
+                    for hy in (False, True):
+                        if not have_ops and (hx or hy):
+                            continue
+                        font = O.Rec()
+                        for f in frec['fields']:
+                            font[PF + f['n']] = None
+                        font[PF + 'm_ops'] = O.Rec({n: 'garbage' for n in names})
+                        FX, FY = O.Rec({'#fn': 'x'}), O.Rec({'#fn': 'y'})
+                        ops = O.Rec({names[0]: 24, names[1]: O.Ptr(FX if hx else None), names[2]: O.Ptr(FY if hy else None)})
+
+                        def rec_of(x):
+                            if isinstance(x, O.PtrLV):
+                                return x.lv.load()
+                            if isinstance(x, O.LV):
+                                return x.load()
+                            return x.rec if isinstance(x, O.Ptr) else x
+
+                        def memset_(I, f, e, obj, a):
+                            d, n = rec_of(I.rv(a[0])), I.rv(a[2])
+                            if d is not font[PF + 'm_ops']:
+                                raise AnalysisBroken('memset of something other than m_ops')
+                            for k, nm in enumerate(names):
+                                if 8 * (k + 1) <= n:
+                                    d[nm] = 0 if k == 0 else O.Ptr(None)
+                            return I.rv(a[0])
+
+                        def memcpy_(I, f, e, obj, a):
+                            d, s_, n = rec_of(I.rv(a[0])), rec_of(I.rv(a[1])), I.rv(a[2])
+                            if d is not font[PF + 'm_ops'] or s_ is not ops:
+                                raise AnalysisBroken('memcpy of something other than m_ops <- ops')
+                            if n > 24:
+                                raise O.Violation('%d bytes are copied into the 24-byte m_ops' % n, f.loc(e))
+                            for k, nm in enumerate(names):
+                                if 8 * (k + 1) <= n:
+                                    d[nm] = ops[nm]
+                            return I.rv(a[0])
+                        nat = {'memset': memset_, 'memcpy': memcpy_,
+                               'graphite2::Face::glyphs': lambda I, f, e, obj, a: O.Rec({'#gc': 1}),
+                               'graphite2::GlyphCache::unitsPerEm': lambda I, f, e, obj, a: 1000,
+                               'graphite2::GlyphCache::numGlyphs': lambda I, f, e, obj, a: 2,
+                               'graphite2::gralloc': lambda I, f, e, obj, a: O.It(O.Vec(['?'] * 2), 0)}
+                        it = O.Interp(fx, natives=nat)
+                        it.MAX_STEPS = 4000
+                        cases += 1
+                        H = O.Rec({'#handle': 1})
+                        it.call(fn, font, [12, O.LV([O.Rec({'#face': 1})], 0), O.Ptr(H if handle else None), O.Ptr(ops if have_ops else None)])
+                        hinted = bool(font[PF + 'm_hinted'])
+                        cb = font[PF + 'm_ops'].get(names[1])
+                        cbr = cb.rec if isinstance(cb, O.Ptr) else cb
+                        desc = 'gr_make_font_with_ops(handle %s, ops %s%s)' % ('given' if handle else 'NULL', 'given' if have_ops else 'NULL',
+                                                                               (': glyph_advance_x %s, glyph_advance_y %s' % ('set' if hx else 'NULL', 'set' if hy else 'NULL')) if have_ops else '')
+                        if hinted and not (handle and have_ops and hx):
+                            why = ('the only callback the library calls is glyph_advance_x, which this font does not have: Font::advance calls a null function pointer inside gr_make_seg' if cbr is None
+                                   else 'the advance callback is called with the Font object as the handle' if not handle else 'the font takes the hinted path')
+                            run.violated(rule, inst, fn.where(), '%s: the font counts as hinted -- %s' % (desc, why))
+                            return
+                        if hinted and cbr is not FX:
+                            run.violated(rule, inst, fn.where(), '%s: the font is hinted but m_ops.glyph_advance_x is %s, not the application\'s callback' % (desc, 'null' if cbr is None else repr(cbr)))
+                            return
+                        if not hinted and handle and have_ops and hx:
+                            run.violated(rule, inst, fn.where(), '%s: the font counts as unhinted although the application supplied its horizontal advances' % desc)
+                            return
+                        if not hinted and not isinstance(cb, O.Fnref) and cbr is None:
+                            run.violated(rule, inst, fn.where(), '%s: an unhinted font is left with a null glyph_advance_x' % desc)
+                            return
+    except O.Violation as v:
+        run.violated(rule, inst, fn.where(), '%s (%s)' % (v.what, v.loc))
+        return
+    except AnalysisBroken as ex:
+        run.broken(rule, inst, str(ex), fn.where())
+        return
+    run.held(rule, inst, fn.where(), '%d constructions' % cases)
 
 
 def hinted_tests_handle(run, f, e, rule):
